@@ -115,6 +115,8 @@ type FnExec struct {
 	onCall   func(fx *FnExec, call ssa.CallInstruction, args []Val, res *Val)
 	onReturn func(fx *FnExec, ret *ssa.Return, vals []Val)
 	onStore  func(fx *FnExec, instr ssa.Instruction, pl *Place, v Val)
+	onLoad   func(fx *FnExec, instr *ssa.UnOp, pl *Place)
+	onEntry  func(fx *FnExec)
 	ghostTouch func(call ssa.CallInstruction) bool // does this call update a ghost? (nil = every call may)
 	rely       map[string]func(before, after string) string
 	private    []privateObj // fresh objects that never escape: unchanged by any call
